@@ -460,18 +460,26 @@ pub fn strip_attributes(input: TokenStream) -> TokenStream {
     for attr in &mut item.attrs {
         if let syn::Meta::List(meta) = &mut attr.meta {
             if meta.path.is_ident("derive") {
-                let mut tokens =
-                    std::mem::replace(&mut meta.tokens, TokenStream::new()).into_iter();
+                let tokens = std::mem::replace(&mut meta.tokens, TokenStream::new());
 
-                while let Some(TokenTree::Ident(ident)) = tokens.next() {
-                    let punct = tokens.next();
+                // Copy the comma separated entries (plain or path-qualified derives) with their
+                // separators, dropping the entries that name `Logos`.
+                let mut entry: Vec<TokenTree> = Vec::new();
+                for tt in tokens.into_iter().map(Some).chain([None]) {
+                    let separator = match tt {
+                        Some(tt) if !util::is_punct(&tt, ',') => {
+                            entry.push(tt);
+                            continue;
+                        }
+                        separator => separator,
+                    };
 
-                    if ident == "Logos" {
-                        continue;
+                    if matches!(entry.last(), Some(TokenTree::Ident(ident)) if ident == "Logos") {
+                        entry.clear();
+                    } else {
+                        meta.tokens.extend(entry.drain(..));
+                        meta.tokens.extend(separator);
                     }
-
-                    meta.tokens.extend([TokenTree::Ident(ident)]);
-                    meta.tokens.extend(punct);
                 }
             }
         }
